@@ -90,15 +90,20 @@ func (ns *MapNamespace) Browse(bd *ua.BrowseDescription) *ua.BrowseResult {
 
 	if bd.NodeID.IntID() == id.RootFolder {
 
-		refs := make([]*ua.ReferenceDescription, 1)
-		newid := ua.NewNumericNodeID(ns.id, id.ObjectsFolder)
+		refs := make([]*ua.ReferenceDescription, 0, 1)
 		expnewid := ua.NewNumericExpandedNodeID(ns.id, id.ObjectsFolder)
-		refs[0] = &ua.ReferenceDescription{
-			ReferenceTypeID: newid,
+		ref := &ua.ReferenceDescription{
+			ReferenceTypeID: ua.NewNumericNodeID(0, id.Organizes),
+			IsForward:       true,
 			NodeID:          expnewid,
 			BrowseName:      &ua.QualifiedName{NamespaceIndex: ns.id, Name: "Objects"},
 			DisplayName:     &ua.LocalizedText{EncodingMask: ua.LocalizedTextText, Text: "Objects"},
+			NodeClass:       ua.NodeClassObject,
 			TypeDefinition:  expnewid,
+		}
+		// only if it is a reference the client asked for
+		if suitableRef(ns.srv, bd, ref) {
+			refs = append(refs, ref)
 		}
 
 		return &ua.BrowseResult{
@@ -108,15 +113,14 @@ func (ns *MapNamespace) Browse(bd *ua.BrowseDescription) *ua.BrowseResult {
 
 	}
 
-	refs := make([]*ua.ReferenceDescription, len(ns.Data))
+	refs := make([]*ua.ReferenceDescription, 0, len(ns.Data))
 
-	keyid := 0
 	for k := range ns.Data {
 		key := k
 		refid := ua.NewNumericNodeID(0, id.HasComponent)
 		expnewid := ua.NewStringExpandedNodeID(ns.id, key)
 
-		refs[keyid] = &ua.ReferenceDescription{
+		ref := &ua.ReferenceDescription{
 			ReferenceTypeID: refid,
 			IsForward:       true,
 			NodeID:          expnewid,
@@ -125,7 +129,10 @@ func (ns *MapNamespace) Browse(bd *ua.BrowseDescription) *ua.BrowseResult {
 			NodeClass:       ua.NodeClassVariable, // when support is added for nested maps, this will be NodeClassObject
 			TypeDefinition:  expnewid,
 		}
-		keyid++
+		// only the references the client asked for (direction, reference type, node class)
+		if suitableRef(ns.srv, bd, ref) {
+			refs = append(refs, ref)
+		}
 	}
 
 	return &ua.BrowseResult{
